@@ -277,11 +277,15 @@ def main(argv=None):
             # stress candidates: the same values at micro / huge scale (printed in exponent notation, far from 1.0).
             # A replay is an ordinary concrete test of the obligations, so any candidate that fails them is genuine.
             base = (c.get('alt_models') or [c['model']])[0]       # the generic candidate has no zero entries
-            for fac in (Fraction(1, 2 ** 20), Fraction(2 ** 24)):
+            for fac in (Fraction(1, 2 ** 30), Fraction(2 ** 30)):
                 try:
                     # (harness convention: point coordinates have upper-case names; parameters, knots, weights lower-case)
-                    cands.append({k: str(Fraction(v) * fac) if k[:1].isupper() else str(v) for k, v in base.items()})
-                    cands.append({k: str(Fraction(v) * fac) for k, v in base.items()})
+                    up = [abs(Fraction(v)) for k, v in base.items() if k[:1].isupper()] or [Fraction(1)]
+                    floor = min(Fraction(1), max(up) * fac)
+                    c1 = {k: str(Fraction(v) * fac) if k[:1].isupper() else str(v) for k, v in base.items()}
+                    c2 = {k: str(Fraction(v) * fac) for k, v in base.items()}
+                    c1['__floor__'] = c2['__floor__'] = str(floor)
+                    cands += [c1, c2]
                 except Exception:
                     pass
             for am in cands:
